@@ -994,29 +994,6 @@ def check_depths(ctx: Ctx, t: ic.Table) -> None:
     ctx.check(ok, 'R8', cons, f'an IR child gets depth {sorted(by_case[True])} (a non-IR renderable {sorted(by_case[False])}) while new blocks / context switches use '
               f'{sorted(chain_vals)}; an IR child is one level below its parent (`self.depth + 1`, as in the analysis pass where it is the stack index) and a parenthesised '
               f'group stays at `self.depth`: {why}', m.path, calls[0].lineno)
-    # lets are emitted in the order they were completed (post-order), so an earlier let never refers to a later one
-    cons = f'{m.rel}::{P_CLS}::let order'
-    problems = []
-    pcls = m.cls(P_CLS)
-    n_app = 0
-    for c in ast.walk(pcls):
-        if isinstance(c, ast.Call) and isinstance(c.func, ast.Attribute) and isinstance(c.func.value, ast.Attribute) and c.func.value.attr == 'let_bodies':
-            if c.func.attr == 'append':
-                n_app += 1
-            elif c.func.attr in ('insert', 'appendleft'):
-                problems.append(f'`{pf.nsrc(c)[:60]}` puts a completed let in front of the lets completed before it')
-            else:
-                raise AnalysisError(f'{cons}: unrecognised mutation `{pf.nsrc(c)[:60]}`')
-    add = m.func(f'{P_CLS}.StackFrame.add_lets')
-    loops = [st for st in pf.walk_shallow(add) if isinstance(st, ast.For)]
-    par = add.args.args[1].arg if len(add.args.args) >= 2 else None
-    fors = [st for st in loops if pf.nsrc(st.iter) == par or (isinstance(st.iter, ast.Call) and pf.dotted(st.iter.func) == 'reversed') or isinstance(st.iter, ast.Subscript)]
-    if n_app == 0 or len(fors) != 1:
-        raise AnalysisError(f'{cons}: unrecognised let emission')
-    if pf.nsrc(fors[0].iter) != par:
-        problems.append(f'add_lets emits the lets in the order `{pf.nsrc(fors[0].iter)}`')
-    ctx.check(not problems, 'R13', cons, (problems[0] if problems else '') + ': let bodies are completed in post-order, so a let may only refer to lets completed before it; emitted in another '
-              'order, `(Let b (.. (Ref a) ..) (Let a ..` references a before it is bound', m.path, add.lineno, detail={'appends': n_app})
 
 
 def check_child_context(ctx: Ctx, t: ic.Table) -> None:
@@ -2458,6 +2435,37 @@ def _fixed_names(t: ic.Table) -> Set[str]:
     return out
 
 
+def _fold_class_consts(m: pf.Module, cls: ast.ClassDef, selfname: str, tp: List) -> List:
+    """Replace holes `self.X` / `cls.X` / `<Class>.X` of a name template by the string X is bound to in the class body, when that is the
+    only binding of an attribute called X in the whole module (no instance / class store, no setattr) - a class-level constant."""
+    out: List = []
+    for part in tp:
+        val: Optional[str] = None
+        e = part
+        if isinstance(e, ast.Call) and pf.dotted(e.func) == 'str' and len(e.args) == 1:
+            e = e.args[0]
+        if isinstance(e, ast.Attribute) and isinstance(e.value, ast.Name) and e.value.id in (selfname, 'cls', cls.name):
+            binds = [st for st in cls.body if isinstance(st, (ast.Assign, ast.AnnAssign))
+                     and any(isinstance(tg, ast.Name) and tg.id == e.attr for tg in (st.targets if isinstance(st, ast.Assign) else [st.target]))]
+            stores = [n for n in ast.walk(m.tree) if isinstance(n, ast.Attribute) and n.attr == e.attr and isinstance(n.ctx, (ast.Store, ast.Del))]
+            dyn = [n for n in ast.walk(m.tree) if isinstance(n, ast.Call) and pf.dotted(n.func) in ('setattr', 'delattr', 'object.__setattr__')]
+            if len(binds) == 1 and not stores and not dyn and binds[0].value is not None:
+                val = pf.const_str(binds[0].value)
+        if val is None:
+            out.append(part)
+        elif out and isinstance(out[-1], str):
+            out[-1] += val
+        else:
+            out.append(val)
+    merged: List = []
+    for part in out:
+        if isinstance(part, str) and merged and isinstance(merged[-1], str):
+            merged[-1] += part
+        else:
+            merged.append(part)
+    return merged
+
+
 def check_fresh_names(ctx: Ctx, t: ic.Table, pa: _Pass, pp: _Pass) -> Dict[str, str]:
     """R10: every name bound by an emitted Let / AggLet is drawn from a generator that is injective over the whole render."""
     plumbing, ems, carrier = _name_tables(ctx, t, pa, pp)
@@ -2507,6 +2515,7 @@ def check_fresh_names(ctx: Ctx, t: ic.Table, pa: _Pass, pp: _Pass) -> Dict[str, 
         tp = _template(val)
         if tp is None:
             raise AnalysisError(f'{cons}: unrecognised name expression `{pf.nsrc(val)[:80]}`' + (f' (helpers not inlined: {pa.skipped})' if pa.skipped else ''))
+        tp = _fold_class_consts(m, a_cls, pa.selfname, tp)
         at = chain[-1]
         draws: List[Tuple[ast.AST, _Draw]] = []
         sub_chains: List[List[ast.stmt]] = []
@@ -2611,6 +2620,449 @@ def check_fresh_names(ctx: Ctx, t: ic.Table, pa: _Pass, pp: _Pass) -> Dict[str, 
         else:
             ctx.ok('R10', cons, {'template': f'{prefix}<{ref}>', 'user_uid_prefix': uid_prefix, 'inlined': pa.inlined, 'tables': plumbing})
     return plumbing
+
+
+# ---------------------------------------------------------------------------------------------------------------------------
+# R13 (let order): the lets lifted to one binding site are emitted in the order in which their bodies were completed
+# ---------------------------------------------------------------------------------------------------------------------------
+
+class _Ord:
+    """Order of a sequence relative to the completion order of the lets of one binding site: kind 'C' (completion order), 'rev'
+    (its reverse) or 'sorted' (re-ordered by a key; `node` is the sorted(..) call); `over` says what is iterated - the let bodies
+    ('elems'), the keys of a dict of let bodies ('keys') or its (key, body) pairs ('items')."""
+
+    def __init__(self, kind: str, over: str, node: Optional[ast.Call] = None, text: str = ''):
+        self.kind, self.over, self.node, self.text = kind, over, node, text
+
+    def flipped(self, text: str) -> '_Ord':
+        if self.kind == 'sorted':
+            return self
+        return _Ord('rev' if self.kind == 'C' else 'C', self.over, None, text if self.kind == 'C' else '')
+
+
+def _mentions(e: ast.AST, is_base) -> bool:
+    return any(is_base(x) for x in ast.walk(e))
+
+
+def _order_term(fn: pf.FuncDef, e: ast.AST, is_base, ckind: str, where: str, depth: int = 0) -> Optional[_Ord]:
+    """The order in which `e` yields the contents of the container recognised by `is_base` (None: `e` is not derived from it).
+    Order-preserving views (list / tuple / iter / copy / [:] / dict views), reversals and sorted(..) are recognised; any other
+    expression over the container is declined."""
+    if depth > 6:
+        raise AnalysisError(f'{where}: expression over the let bodies too deep')
+    if is_base(e):
+        return _Ord('C', 'keys' if ckind == 'dict' else 'elems')
+    if isinstance(e, ast.Name):
+        ds = pf.assignments(fn).get(e.id, [])
+        if len(ds) == 1 and isinstance(ds[0], ast.expr):
+            return _order_term(fn, ds[0], is_base, ckind, where, depth + 1)
+        if any(isinstance(d, ast.expr) and _mentions(d, is_base) for d in ds):
+            raise AnalysisError(f'{where}: local `{e.id}` is only sometimes derived from the let bodies')
+        return None
+    if not _mentions(e, is_base):
+        if any(isinstance(x, ast.Name) and _order_term(fn, x, is_base, ckind, where, depth + 1) is not None for x in ast.walk(e)):
+            raise AnalysisError(f'{where}: unrecognised expression over the let bodies `{pf.nsrc(e)[:60]}`')
+        return None
+    if isinstance(e, ast.Call):
+        d = pf.dotted(e.func) or ''
+        if d in ('list', 'tuple', 'iter') and len(e.args) == 1 and not e.keywords:
+            return _order_term(fn, e.args[0], is_base, ckind, where, depth + 1)
+        if d == 'reversed' and len(e.args) == 1 and not e.keywords:
+            inner = _order_term(fn, e.args[0], is_base, ckind, where, depth + 1)
+            return inner.flipped(pf.nsrc(e)) if inner is not None else None
+        if d == 'sorted' and len(e.args) == 1:
+            inner = _order_term(fn, e.args[0], is_base, ckind, where, depth + 1)
+            if inner is not None:
+                return _Ord('sorted', inner.over, e, pf.nsrc(e))
+        if isinstance(e.func, ast.Attribute) and not e.args and not e.keywords:
+            inner = _order_term(fn, e.func.value, is_base, ckind, where, depth + 1)
+            if inner is not None:
+                if e.func.attr == 'copy':
+                    return inner
+                if e.func.attr in ('values', 'keys', 'items') and inner.over == 'keys':
+                    return _Ord(inner.kind, {'values': 'elems', 'keys': 'keys', 'items': 'items'}[e.func.attr], inner.node, inner.text)
+    if isinstance(e, ast.Subscript) and isinstance(e.slice, ast.Slice):
+        inner = _order_term(fn, e.value, is_base, ckind, where, depth + 1)
+        if inner is not None and inner.over != 'keys':
+            lo, hi, step = e.slice.lower, e.slice.upper, e.slice.step
+            if lo is None and hi is None and (step is None or _int_const(step) == 1):
+                return inner
+            if lo is None and hi is None and _int_const(step) == -1:
+                return inner.flipped(pf.nsrc(e))
+    raise AnalysisError(f'{where}: unrecognised expression over the let bodies `{pf.nsrc(e)[:60]}`')
+
+
+def _emission_orders(fn: pf.FuncDef, is_base, ckind: str, where: str) -> List[Tuple[_Ord, ast.AST]]:
+    """(order, statement) for every place in `fn` where the contents of the container are written out one after the other: a
+    `for` loop whose body emits something computed from the loop variable, an index loop over range(len(container)), or
+    `<out>.extend(chain.from_iterable(<container>))` / `<out>.extend(s for b in <container> for s in b)`.  In-place `.reverse()`
+    of the container before that is a reversal; `.sort(..)` and every other use that is not len(..) is declined."""
+    out: List[Tuple[_Ord, ast.AST]] = []
+    flips: List[str] = []
+    used: Set[int] = set()
+
+    def emits(body: Sequence[ast.stmt], names: Set[str]) -> bool:
+        for st in body:
+            for n in ast.walk(st):
+                if isinstance(n, ast.Call) and isinstance(n.func, ast.Attribute) and n.func.attr in ('extend', 'append', 'write') and any(pf.names_in(a) & names for a in n.args):
+                    return True
+                if isinstance(n, ast.AugAssign) and pf.names_in(n.value) & names:
+                    return True
+        return False
+
+    def mark(e: ast.AST) -> None:
+        used.update(id(x) for x in ast.walk(e))
+
+    for st in pf.walk_shallow(fn):
+        if id(st) in used:
+            continue
+        if isinstance(st, ast.For):
+            tnames = {n.id for n in ast.walk(st.target) if isinstance(n, ast.Name)}
+            it = st.iter
+            rng = isinstance(it, ast.Call) and pf.dotted(it.func) == 'range' and len(it.args) == 1 and not it.keywords
+            if rng:
+                a0 = pf.expand_locals(fn, it.args[0])
+                if isinstance(a0, ast.Call) and pf.dotted(a0.func) == 'len' and len(a0.args) == 1 and _order_term(fn, a0.args[0], is_base, ckind, where) is not None:
+                    subs = [n for b in st.body for n in ast.walk(b) if isinstance(n, ast.Subscript) and _mentions(n.value, is_base) and pf.names_in(n.slice) & tnames]
+                    if not subs:
+                        mark(it)
+                        continue  # only counts the lets (closing parentheses)
+                    if ckind == 'dict':
+                        raise AnalysisError(f'{where}: a dict of let bodies is indexed by position')
+                    for sx in subs:
+                        if not is_base(sx.value):
+                            raise AnalysisError(f'{where}: unrecognised indexed access `{pf.nsrc(sx)[:60]}`')
+                        if isinstance(sx.slice, ast.Name):
+                            out.append((_Ord('C', 'elems'), st))
+                        elif (isinstance(sx.slice, ast.UnaryOp) and isinstance(sx.slice.op, ast.Invert) and isinstance(sx.slice.operand, ast.Name)) \
+                                or pf.nsrc(sx.slice).replace(' ', '') in {f'-{v}-1' for v in tnames} | {f'-1-{v}' for v in tnames} | {f'-({v}+1)' for v in tnames}:
+                            out.append((_Ord('rev', 'elems', None, pf.nsrc(sx)), st))
+                        else:
+                            raise AnalysisError(f'{where}: unrecognised indexed access `{pf.nsrc(sx)[:60]}`')
+                    mark(st)
+                    continue
+            wrapped = isinstance(it, ast.Call) and pf.dotted(it.func) == 'enumerate' and len(it.args) == 1 and not it.keywords
+            term = _order_term(fn, it.args[0] if wrapped else it, is_base, ckind, where)  # type: ignore[attr-defined]
+            if term is None:
+                continue
+            mark(it)
+            if emits(st.body, tnames):
+                out.append((term, st))
+                for b in st.body:
+                    mark(b)
+            else:
+                raise AnalysisError(f'{where}: loop over the let bodies `{pf.nsrc(st.iter)[:60]}` emits nothing recognisable')
+        elif isinstance(st, ast.Call) and isinstance(st.func, ast.Attribute) and st.func.attr in ('extend', 'writelines') and len(st.args) == 1 and _mentions(st.args[0], is_base):
+            a = st.args[0]
+            src_e: Optional[ast.AST] = None
+            if isinstance(a, ast.Call) and (pf.dotted(a.func) or '').endswith('chain.from_iterable') and len(a.args) == 1:
+                src_e = a.args[0]
+            elif isinstance(a, ast.Call) and (pf.dotted(a.func) or '').split('.')[-1] == 'chain' and len(a.args) == 1 and isinstance(a.args[0], ast.Starred):
+                src_e = a.args[0].value
+            elif isinstance(a, (ast.GeneratorExp, ast.ListComp)) and len(a.generators) == 2 and not any(g.ifs for g in a.generators) \
+                    and isinstance(a.generators[0].target, ast.Name) and pf.nsrc(a.generators[1].iter) == a.generators[0].target.id and pf.nsrc(a.elt) == pf.nsrc(a.generators[1].target):
+                src_e = a.generators[0].iter
+            if src_e is None:
+                raise AnalysisError(f'{where}: unrecognised emission `{pf.nsrc(st)[:70]}`')
+            term = _order_term(fn, src_e, is_base, ckind, where)
+            if term is None or term.over != 'elems':
+                raise AnalysisError(f'{where}: unrecognised emission `{pf.nsrc(st)[:70]}`')
+            out.append((term, st))
+            mark(st)
+        elif isinstance(st, ast.Call) and isinstance(st.func, ast.Attribute) and is_base(st.func.value) and st.func.attr in ('reverse', 'sort'):
+            if st.func.attr == 'sort':
+                raise AnalysisError(f'{where}: the let bodies are sorted in place by `{pf.nsrc(st)[:60]}` (key over rendered text: not modelled)')
+            flips.append(pf.nsrc(st))
+            mark(st)
+    # every other use must be harmless (len(..), truth test)
+    for n in pf.walk_shallow(fn):
+        if is_base(n) and id(n) not in used:
+            par_ok = False
+            for p in pf.walk_shallow(fn):
+                if isinstance(p, ast.Call) and pf.dotted(p.func) in ('len', 'bool') and any(a is n for a in p.args):
+                    par_ok = True
+                if isinstance(p, (ast.If, ast.While, ast.IfExp)) and p.test is n:
+                    par_ok = True
+                if isinstance(p, ast.UnaryOp) and isinstance(p.op, ast.Not) and p.operand is n:
+                    par_ok = True
+            if not par_ok:
+                raise AnalysisError(f'{where}: the let bodies are used in a way that is not modelled (`{pf.nsrc(n)}` outside a recognised loop / len())')
+    if len(flips) % 2:
+        out = [(o.flipped(flips[0]), st) for o, st in out]
+    return out
+
+
+def _let_name_expr(pp: _Pass, pcls: ast.ClassDef, e: ast.AST, tables: Set[str], depth: int = 0) -> bool:
+    """Is `e` the name of a lifted let: a local all of whose definitions read a table of lifted lets (`c.lifted_lets[id(child)]`), or a
+    frame attribute that is only ever assigned such a local (or None)?"""
+    if depth > 3:
+        return False
+    if isinstance(e, ast.Subscript) and isinstance(e.value, ast.Attribute) and e.value.attr in tables:
+        return True
+    if isinstance(e, ast.Name):
+        ds = pp.defs(e.id)
+        return bool(ds) and all(isinstance(d, ast.expr) and _let_name_expr(pp, pcls, d, tables, depth + 1) for d in ds)
+    if isinstance(e, ast.Attribute):
+        vals = []
+        for fn_ in [pp.fn] + [f for f in ast.walk(pcls) if isinstance(f, ast.FunctionDef) and f.name != '__call__']:
+            for st in ast.walk(fn_):
+                if isinstance(st, (ast.Assign, ast.AnnAssign)) and st.value is not None:
+                    tgs = st.targets if isinstance(st, ast.Assign) else [st.target]
+                    if any(isinstance(tg, ast.Attribute) and tg.attr == e.attr for tg in tgs):
+                        vals.append((fn_, st.value))
+        real = [(f, v) for f, v in vals if not (isinstance(v, ast.Constant) and v.value is None)]
+        return bool(real) and all(f is pp.fn and _let_name_expr(pp, pcls, v, tables, depth + 1) for f, v in real)
+    return False
+
+
+def _names_allocated_at_sighting(pa: _Pass) -> Optional[str]:
+    """How the analysis pass hands out the names of lifted lets: if every statement that registers a name keys it by a node that
+    was just fetched from its parent's child list (`child = node.children[i]` ... `lets[id(child)] = uid`), names are allocated when a
+    node is SIGHTED from a parent (before / instead of traversing it), not when the node is completed.  Returns a description, or
+    None when some name is registered for another node (allocation order not modelled)."""
+    bs, _ = _ctor_map(pa.orig, 'BindingSite', pa.key)
+    tables = {v.attr for v in bs.values() if isinstance(v, ast.Attribute) and pf.nsrc(v.value) == 'self'}
+    writers = [n for n in ast.walk(pa.fn) if isinstance(n, ast.Assign) and len(n.targets) == 1 and isinstance(n.targets[0], ast.Subscript)
+               and _table_attr(pa, n.targets[0].value, tables)]
+    if not writers:
+        return None
+    descr = []
+    for w in writers:
+        k = w.targets[0].slice  # type: ignore[attr-defined]
+        if not (isinstance(k, ast.Call) and pf.dotted(k.func) == 'id' and len(k.args) == 1 and isinstance(k.args[0], ast.Name)):
+            return None
+        ds = pa.defs(k.args[0].id)
+        if not (len(ds) == 1 and isinstance(ds[0], ast.Subscript) and isinstance(ds[0].value, ast.Attribute) and ds[0].value.attr == 'children'):
+            return None
+        descr.append(f'`{pf.nsrc(w)}` with `{k.args[0].id} = {pf.nsrc(ds[0])}`')
+    return '; '.join(descr)
+
+
+ORDER_WHY = ('let bodies are completed in post-order, so a let may only refer to lets completed before it; emitted in another order, '
+             '`(Let b (.. (Ref a) ..) (Let a ..` references a before it is bound')
+
+
+def check_let_order(ctx: Ctx, t: ic.Table, pa: _Pass, pp: _Pass) -> None:
+    """R13 (let order).  Three structural facts, each necessary for "every lifted binding is placed where all variables it uses are in scope":
+      (a) a let body is put into the site's container when it is COMPLETE (no frame is pushed afterwards in the same step; the frame that
+          owns the builder is popped), so the container is filled in completion order - not when the traversal of the lifted node starts;
+      (b) it is put at the END of the container (append / insertion into an insertion-ordered dict under a fresh name);
+      (c) the container is written out in that order: the composition of the expression passed at the call site and the loop of the
+          emitting method is the identity - not a reversal, not a re-ordering by the NAMES (names are allocated when the analysis pass
+          sights a node for the second time, which is not a dependency order)."""
+    m = pp.orig
+    cons = f'{m.rel}::{P_CLS}::let order'
+    pcls = pp.mod.cls(P_CLS)
+    bsf, _ = _ctor_map(m, 'BindingsStackFrame', pp.key)
+    site_tables = {f for f, v in bsf.items() if isinstance(v, ast.Attribute) and f != 'depth' and f.endswith('lifted_lets')}
+    empties: Dict[str, str] = {}
+    for f, v in bsf.items():
+        if isinstance(v, ast.List) and not v.elts:
+            empties[f] = 'list'
+        elif isinstance(v, ast.Dict) and not v.keys:
+            empties[f] = 'dict'
+        elif isinstance(v, ast.Call) and not v.args and not v.keywords and (pf.dotted(v.func) or '').split('.')[-1] in ('list', 'dict', 'OrderedDict', 'deque'):
+            empties[f] = {'list': 'list', 'deque': 'deque'}.get((pf.dotted(v.func) or '').split('.')[-1], 'dict')
+    nested = {f.name: f for c in pcls.body if isinstance(c, ast.ClassDef) for f in c.body if isinstance(f, ast.FunctionDef)}
+    inlined_helpers = {h for h, _ in pp.inlined}
+
+    # ---- (c) emission: which container is written out, and in which order --------------------------------------------------------
+    found: Dict[str, List[Tuple[_Ord, ast.AST, str]]] = {}
+    for F, ckind in empties.items():
+        def is_field(e: ast.AST, F=F) -> bool:
+            return isinstance(e, ast.Attribute) and e.attr == F and isinstance(e.ctx, ast.Load)
+        res: List[Tuple[_Ord, ast.AST, str]] = []
+        # written out by a method of a nested class that receives it as an argument
+        handled: Set[int] = set()
+        for c in ast.walk(pp.fn):
+            if isinstance(c, ast.Call) and isinstance(c.func, ast.Attribute) and c.func.attr in nested and any(_mentions(pf.expand_locals(pp.fn, a), is_field) for a in list(c.args) + [k.value for k in c.keywords] if not isinstance(a, ast.Starred)):
+                callee = nested[c.func.attr]
+                static = 'staticmethod' in pf.decorator_names(callee)
+                params = [a.arg for a in callee.args.args][0 if static else 1:]
+                for i, a in enumerate(c.args):
+                    handled.update(id(x) for x in ast.walk(a))
+                    for nm in [x for x in ast.walk(a) if isinstance(x, ast.Name) and isinstance(x.ctx, ast.Load)]:
+                        dd = pf.single_def(pp.fn, nm.id)  # the defining expression of a local that expand_locals folds into the argument
+                        if dd is not None and isinstance(dd, ast.expr) and _mentions(dd, is_field):
+                            handled.update(id(x) for x in ast.walk(dd))
+                    if not isinstance(a, ast.Starred):
+                        a = pf.expand_locals(pp.fn, a)
+                    if not _mentions(a, is_field):
+                        continue
+                    if isinstance(a, ast.Starred) or i >= len(params):
+                        raise AnalysisError(f'{cons}: cannot bind `{pf.nsrc(a)[:40]}` to a parameter of {callee.name}')
+                    par = params[i]
+                    site = _order_term(pp.fn, a, is_field, ckind, cons)
+                    if site is None:
+                        raise AnalysisError(f'{cons}: unrecognised argument `{pf.nsrc(a)[:60]}`')
+                    handled.update(id(x) for x in ast.walk(a))
+                    inner_kind = ckind if (site.kind != 'sorted' and site.over == ('keys' if ckind == 'dict' else 'elems') and isinstance(a, (ast.Attribute, ast.Name))) else 'list'
+                    if any(isinstance(n, ast.Name) and n.id == par and isinstance(n.ctx, ast.Store) for n in ast.walk(callee)):
+                        raise AnalysisError(f'{cons}: {callee.name} re-assigns its parameter `{par}`')
+                    for o, st in _emission_orders(callee, lambda e, par=par: isinstance(e, ast.Name) and e.id == par and isinstance(e.ctx, ast.Load), inner_kind, f'{cons} ({callee.name})'):
+                        if site.kind == 'sorted':
+                            comp = _Ord('sorted', site.over if o.over == 'elems' else o.over, site.node, site.text) if o.kind != 'sorted' else o
+                        elif site.kind == 'rev':
+                            comp = o.flipped(site.text)
+                            if site.over != ('keys' if ckind == 'dict' else 'elems') and o.over == 'elems':
+                                comp.over = site.over
+                        else:
+                            comp = o if site.over in ('keys', 'elems') and isinstance(a, (ast.Attribute, ast.Name)) else _Ord(o.kind, site.over if o.over == 'elems' else o.over, o.node, o.text)
+                        res.append((comp, st, f'{P_CLS}.StackFrame.{callee.name}' if callee.name in nested else callee.name))
+                for k in c.keywords:
+                    if _mentions(k.value, is_field):
+                        raise AnalysisError(f'{cons}: let bodies passed by keyword to {callee.name} (not modelled)')
+        # written out by the pass itself
+        def is_field_here(e: ast.AST, F=F, handled=handled) -> bool:
+            return isinstance(e, ast.Attribute) and e.attr == F and isinstance(e.ctx, ast.Load) and id(e) not in handled
+        mutators = {id(n.func.value) for n in ast.walk(pp.fn) if isinstance(n, ast.Call) and isinstance(n.func, ast.Attribute) and is_field(n.func.value)
+                    and n.func.attr in ('append', 'insert', 'appendleft', 'setdefault')}
+        stores = {id(n.value) for n in ast.walk(pp.fn) if isinstance(n, ast.Subscript) and isinstance(n.ctx, (ast.Store, ast.Del)) and is_field(n.value)}
+        try:
+            for o, st in _emission_orders(pp.fn, lambda e: is_field_here(e) and id(e) not in mutators and id(e) not in stores, ckind, cons):
+                res.append((o, st, f'{P_CLS}.__call__'))
+        except AnalysisError:
+            if res or any(True for _ in mutators):
+                raise
+        if res:
+            found[F] = res
+    if len(found) != 1:
+        raise AnalysisError(f'{cons}: unrecognised let emission ({len(found)} containers of the binding site are written out)')
+    F, emis = next(iter(found.items()))
+    ckind = empties[F]
+
+    def is_F(e: ast.AST) -> bool:
+        return isinstance(e, ast.Attribute) and e.attr == F
+
+    problems: List[str] = []
+    # ---- (a) + (b) insertions ----------------------------------------------------------------------------------------------------
+    n_ins = 0
+    key_is_name = True
+    in_call = {id(n) for n in ast.walk(pp.fn)}
+    for fn_ in [f for f in ast.walk(pcls) if isinstance(f, ast.FunctionDef)]:
+        if fn_.name in inlined_helpers:
+            continue
+        for n in ast.walk(fn_):
+            ins: Optional[Tuple[ast.AST, Optional[ast.AST]]] = None  # (value, key)
+            if isinstance(n, ast.Call) and isinstance(n.func, ast.Attribute) and is_F(n.func.value):
+                meth = n.func.attr
+                if meth == 'append' and len(n.args) == 1 and ckind in ('list', 'deque'):
+                    ins = (n.args[0], None)
+                elif (meth == 'insert' and len(n.args) == 2 and _int_const(n.args[0]) == 0) or (meth == 'appendleft' and len(n.args) == 1):
+                    problems.append(f'`{pf.nsrc(n)[:60]}` puts a completed let in front of the lets completed before it')
+                    n_ins += 1
+                    continue
+                elif meth in ('values', 'keys', 'items', 'copy', '__len__', 'get', '__iter__'):
+                    continue
+                elif meth in ('reverse', 'sort') and fn_ is not pp.fn:
+                    raise AnalysisError(f'{cons}: `{pf.nsrc(n)[:60]}` outside {P_CLS}.__call__ (not modelled)')
+                elif meth in ('reverse', 'sort'):
+                    continue  # handled as part of the emission order
+                else:
+                    raise AnalysisError(f'{cons}: unrecognised mutation `{pf.nsrc(n)[:60]}`')
+            elif isinstance(n, ast.Assign) and any(isinstance(tg, ast.Subscript) and is_F(tg.value) for tg in n.targets):
+                if len(n.targets) != 1 or ckind != 'dict' or isinstance(n.targets[0].slice, ast.Slice):  # type: ignore[attr-defined]
+                    raise AnalysisError(f'{cons}: unrecognised store `{pf.nsrc(n)[:60]}`')
+                ins = (n.value, n.targets[0].slice)  # type: ignore[attr-defined]
+            elif isinstance(n, (ast.AugAssign, ast.Delete, ast.AnnAssign)) and any(is_F(x) for x in ast.walk(n)):
+                raise AnalysisError(f'{cons}: unrecognised mutation `{pf.nsrc(n)[:60]}`')
+            elif isinstance(n, ast.Assign) and any(is_F(tg) for tg in n.targets):
+                raise AnalysisError(f'{cons}: the container of let bodies is replaced by `{pf.nsrc(n)[:60]}`')
+            if ins is None:
+                continue
+            n_ins += 1
+            val, key = ins
+            if id(n) not in in_call:
+                raise AnalysisError(f'{cons}: let bodies are registered in {fn_.name}, which is not inlined into {P_CLS}.__call__')
+            st = pp.stmt_of(n)
+            if key is not None:
+                if isinstance(key, ast.Constant):
+                    raise AnalysisError(f'{cons}: let bodies stored under the constant key `{pf.nsrc(key)}`')
+                key_is_name = key_is_name and _let_name_expr(pp, pcls, key, site_tables)
+            # (a) complete when registered
+            loop = st
+            while id(loop) in pp.parent and not isinstance(loop, ast.While):
+                loop = pp.parent[id(loop)]
+            if not isinstance(loop, ast.While):
+                raise AnalysisError(f'{cons}: `{pf.nsrc(st)[:60]}` is not inside the traversal loop')
+            heads = [x for x in pp.cfg.nodes if x.ast is loop.test]
+            if len(heads) != 1:
+                raise AnalysisError(f'{cons}: traversal loop head not found in the CFG')
+            head = heads[0]
+            s_node = pp.node_of(st)
+
+            def is_push(x: pf.Node) -> bool:
+                return any(isinstance(c.func, ast.Attribute) and c.func.attr in ('append', 'extend') and isinstance(c.func.value, ast.Name) and _frame_list(pp, c.func.value)
+                           for c in pf.node_calls(x))
+
+            def is_pop(x: pf.Node) -> bool:
+                return any(isinstance(c.func, ast.Attribute) and c.func.attr == 'pop' and isinstance(c.func.value, ast.Name) and _frame_list(pp, c.func.value) and not c.args
+                           for c in pf.node_calls(x))
+
+            pth = pp.cfg.path_avoiding(s_node, is_push, lambda x: x is head)
+            if pth is not None:
+                problems.append(f'`{pf.nsrc(st)[:70]}` registers the let body and then pushes a frame (`{pf.nsrc(pth[-1].ast)[:40]}`) in the same step: the body is registered when the '
+                                f'traversal of the lifted node STARTS, so the lets of a site are ordered by first visit (pre-order) and the let of an outer shared node precedes the let of a shared '
+                                f'node nested in it, e.g. x = a + 1; y = x * x; y + y renders (Let y (.. (Ref x) ..) (Let x ..')
+                continue
+            if isinstance(val, ast.Attribute) and isinstance(val.value, ast.Name) and _frame_var(pp, val.value):
+                fdefs = pp.defs(val.value.id)
+                top = all(isinstance(d, ast.Subscript) and _int_const(d.slice) == -1 for d in fdefs)
+                popped = pp.cfg.path_avoiding(s_node, lambda x: x is head, is_pop) is None
+                if not (top and popped):
+                    raise AnalysisError(f'{cons}: `{pf.nsrc(st)[:60]}`: cannot show that the frame owning the builder is finished (top of the stack and popped in the same step)')
+            elif isinstance(val, ast.Name):
+                vd = pp.defs(val.id)
+                if not (vd and all(isinstance(d, ast.List) for d in vd)):
+                    raise AnalysisError(f'{cons}: `{pf.nsrc(st)[:60]}`: registered value is not a builder list built in the same step')
+            else:
+                raise AnalysisError(f'{cons}: `{pf.nsrc(st)[:60]}`: unrecognised registered value')
+    if n_ins == 0:
+        raise AnalysisError(f'{cons}: unrecognised let emission (nothing is ever put into `{F}`)')
+    # ---- (c) verdict on the emission order ---------------------------------------------------------------------------------------
+    line = emis[0][1].lineno if hasattr(emis[0][1], 'lineno') else pp.fn.lineno
+    for o, st, where in emis:
+        if o.kind == 'C':
+            continue
+        if o.kind == 'rev':
+            problems.append(f'{where} emits the lets in the order `{o.text}`')
+            continue
+        call = o.node
+        assert call is not None
+        keyf = next((k.value for k in call.keywords if k.arg == 'key'), None)
+        if any(k.arg not in ('key', 'reverse') for k in call.keywords):
+            raise AnalysisError(f'{cons}: unrecognised `{pf.nsrc(call)[:60]}`')
+        by_name = False
+        if o.over == 'keys' and ckind == 'dict' and key_is_name:
+            by_name = keyf is None or not any(is_F(x) for x in ast.walk(keyf))
+            if keyf is not None and by_name:
+                # the key function must depend on the name only: a lambda over its parameter, or a named function / method (not a bound method of the container)
+                if isinstance(keyf, ast.Lambda):
+                    free = {x.id for x in ast.walk(keyf.body) if isinstance(x, ast.Name)} - {a.arg for a in keyf.args.args}
+                    by_name = not any(isinstance(x, ast.Name) and x.id in free and x.id not in ('int', 'len', 'str') and not x.id[:1].isupper() for x in ast.walk(keyf.body))
+                elif isinstance(keyf, ast.Attribute) and isinstance(keyf.value, ast.Name) and not keyf.value.id[:1].isupper() and keyf.value.id not in ('self', 'cls'):
+                    by_name = False
+        elif o.over == 'items' and ckind == 'dict' and key_is_name:
+            if keyf is None:
+                by_name = True
+            elif isinstance(keyf, ast.Lambda) and len(keyf.args.args) == 1:
+                p = keyf.args.args[0].arg
+                uses = [x for x in ast.walk(keyf.body) if isinstance(x, ast.Name) and x.id == p]
+                subs = [x for x in ast.walk(keyf.body) if isinstance(x, ast.Subscript) and isinstance(x.value, ast.Name) and x.value.id == p and _int_const(x.slice) == 0]
+                by_name = bool(uses) and len(uses) == len(subs)
+            elif isinstance(keyf, ast.Call) and (pf.dotted(keyf.func) or '').split('.')[-1] == 'itemgetter' and len(keyf.args) == 1 and _int_const(keyf.args[0]) == 0:
+                by_name = True
+        if not by_name:
+            raise AnalysisError(f'{cons}: {where} emits the lets in the order `{o.text[:70]}` (a re-ordering by something other than the let names: not modelled)')
+        alloc = _names_allocated_at_sighting(pa)
+        if alloc is None:
+            raise AnalysisError(f'{cons}: {where} emits the lets ordered by name (`{o.text[:60]}`) and the order in which the analysis pass allocates names is not modelled')
+        problems.append(f'{where} emits the lets ordered by their NAMES (`{o.text[:80]}`), not in completion order. Names are allocated by the analysis pass when a node is sighted from its '
+                        f'parent ({alloc}: on the second sighting), not when it is completed, so name order is not a dependency order: for x = a + 1; y = x * 2; (y * y) - x the second sighting of y comes before the '
+                        f'second sighting of x, y gets the smaller name and `(Let <y> (.. (Ref <x>) ..) (Let <x> ..` references <x> outside its binding (same for s1 = agg.sum(q); s1 + s1 + agg.max(q): '
+                        f'the Let of the aggregation is placed outside the AggLet of its argument)')
+    ctx.check(not problems, 'R13', cons, (problems[0] if problems else '') + (f' (+{len(problems) - 1} more)' if len(problems) > 1 else '') + ': ' + ORDER_WHY, m.path, line,
+              detail={'container': F, 'kind': ckind, 'insertions': n_ins, 'emitted_by': sorted({w for _, _, w in emis})})
 
 
 KINDS = ('value', 'agg', 'scan')
@@ -3050,6 +3502,7 @@ def run(ctx: Ctx) -> None:
     else:
         ctx.unit('renderer_helpers_inlined', len(pa.inlined) + len(pp.inlined))
         plumbing = attempt(check_fresh_names, pa, pp)
+        attempt(check_let_order, pa, pp)
         if plumbing is not None:
             attempt(check_lift_decisions, pa, pp, plumbing)
     if ctx.tier == 'thorough':
